@@ -18,7 +18,7 @@
 From Coq Require Import QArith String.
 From CKT Require Import Model.CutFinder Extracted.Facts
   Proofs.UFP Proofs.CutFinderSpec Proofs.CutFinderOut Proofs.CutFinderCirc Proofs.CutFinderRender Proofs.CutFinderP
-  Proofs.CutFinderFail Proofs.CutFinderFuel Proofs.CutFinderTotal.
+  Proofs.CutFinderFail Proofs.CutFinderFuel Proofs.CutFinderTotal Proofs.CutFinderExt Proofs.CutFinderQueue.
 Close Scope Q_scope.
 
 (* the output is the input with only markers added *)
@@ -88,6 +88,71 @@ Theorem c07_terminates : forall fuel i,
   circ_wf (fi_circ i) -> fuel_bound (length (fi_circ i)) <= fuel -> find_cuts_full fuel i <> NoFuel.
 Proof. exact find_cuts_enough_fuel. Qed.
 
+(* TOTALITY (error clause, positive direction; the greedy fall-back is never bounded by max_gamma or max_backjumps):
+   inside the property's domain find_cuts returns a result whenever SOME permitted plan meets the width limit *)
+Theorem c07_succeeds_when_feasible : forall fuel i,
+  let t := fi_gtab i in let c := fi_circ i in
+  circ_wf c -> circ_plain c ->
+  (forall x, In x c -> is_multi x = true -> kappa_of t x <> None) ->
+  fi_ncl i = 0 -> 1 <= fi_W i -> settings_ok i = true ->
+  fuel_bound (length c) <= fuel ->
+  (exists p, plan_permitted t (fi_gate_lo i) (fi_wire_lo i) c p /\ feasible (fi_W i) (render t p c)) ->
+  exists r, find_cuts_full fuel i = Val r.
+Proof. exact succeeds_when_feasible. Qed.
+
+(* THE RUNNING INSERTION OFFSET, for any mix and order of gate and wire cuts: input instruction k sits in the output at
+   k + (number of CutWire markers of instructions 0..k-1) + (its own markers); its markers sit directly before it;
+   metadata['cuts'] contains ("Gate Cut", that position) for every cut gate, ("Wire Cut", position) for every marker -
+   and nothing else *)
+Theorem c07_cut_positions : forall fuel i r,
+  find_cuts_full fuel i = Val r ->
+  let t := fi_gtab i in let c := fi_circ i in
+  circ_wf c -> circ_plain c -> gtab_ok t ->
+  exists p : plan,
+    fr_circ r = render t p c /\ plan_permitted t (fi_gate_lo i) (fi_wire_lo i) c p /\
+    (forall k x, nth_error c k = Some x ->
+       let o := k + offset p 0 k in
+       nth_error (fr_circ r) (o + nmark (p k)) = Some (placed t (p k) x) /\
+       (p k = KGateCut -> In (GateCut, o) (md_cuts (fr_meta r))) /\
+       (forall m, m < nmark (p k) ->
+          nth_error (fr_circ r) (o + m) = Some (cut_wire_instr (marker_qubit (p k) x m)) /\
+          In (WireCut, o + m) (md_cuts (fr_meta r)))) /\
+    (forall kd pos, In (kd, pos) (md_cuts (fr_meta r)) ->
+       exists k x, nth_error c k = Some x /\
+         ((kd = GateCut /\ p k = KGateCut /\ pos = k + offset p 0 k) \/
+          (kd = WireCut /\ exists m, m < nmark (p k) /\ pos = k + offset p 0 k + m))).
+Proof. exact cut_positions. Qed.
+
+(* THE PRIORITY QUEUE, precisely.  (1) the model's pop returns an entry with no smaller entry in the queue (tuple order on
+   (cost, -depth, rand, seq)) and leaves exactly the others; *)
+Theorem c07_pop_is_minimum : forall l e rest,
+  extract_min l = Some (e, rest) -> Permutation.Permutation l (e :: rest) /\ minimal_in e l.
+Proof. exact extract_min_pops_minimum. Qed.
+
+(* (2) with pairwise different seq numbers, ANY pop on ANY representation l' of the same multiset that returns an entry
+   with no smaller one and removes exactly it, pops the same entry and leaves the same multiset: this is all that is
+   assumed of heapq.heappush/heappop; *)
+Theorem c07_pop_contract_determines : forall l l' e rest e' rest',
+  seqs_distinct l -> Permutation.Permutation l l' ->
+  extract_min l = Some (e, rest) ->
+  In e' l' -> minimal_in e' l' -> Permutation.Permutation l' (e' :: rest') ->
+  e' = e /\ Permutation.Permutation rest rest'.
+Proof. exact pop_contract_determines. Qed.
+
+(* (3) the best-first loop depends on the queue only as a multiset (same result, same counters, same flag, queues equal
+   up to order), and keeps the seq numbers pairwise different; they are so initially *)
+Theorem c07_queue_is_multiset : forall tape fa mg mb fuel b b' pd,
+  SD b -> bsim b b' -> orel (pass_loop tape fa mg mb fuel b pd) (pass_loop tape fa mg mb fuel b' pd).
+Proof. exact pass_loop_perm. Qed.
+
+Theorem c07_queue_seqs_distinct : forall tape fa mg mb fuel s b pd b1 r,
+  SD (bfs_initialize tape s) /\
+  (SD b -> SD (update_upperbound b s)) /\
+  (SD b -> pass_loop tape fa mg mb fuel b pd = Val (b1, r) -> SD b1).
+Proof.
+  intros. split; [apply SD_initialize|]. split; [apply SD_update_upperbound|apply pass_loop_SD].
+Qed.
+
 (* union-find: the path-collapsing loop of find_wire_root (left out of the model) is unobservable *)
 Theorem c07_compression_invisible : forall u w, uf_wf u ->
   uf_wf (compress u w) /\ forall x, find (compress u w) x = find u x.
@@ -142,6 +207,29 @@ Qed.
 Example c07_ex_refused_nocut : find_cuts_full 100 (ex_in false false 2) = Ref /\ settings_ok (ex_in false false 2) = true.
 Proof. split; [vm_compute; reflexivity|reflexivity]. Qed.
 
+(* non-vacuity of c07_succeeds_when_feasible: all its hypotheses hold for the example (gate cuts only, W = 2) *)
+Example c07_ex_feasible_plan :
+  (exists p, plan_permitted ex_gtab true false ex_circ p /\ feasible 2 (render ex_gtab p ex_circ)) /\
+  (forall x, In x ex_circ -> is_multi x = true -> kappa_of ex_gtab x <> None) /\
+  settings_ok (ex_in true false 2) = true /\ fuel_bound (length ex_circ) <= fuel_bound (length ex_circ).
+Proof.
+  destruct c07_ex_hyps as (Hwf & Hpl & Htab). destruct c07_ex_gate as (r & Hr & _).
+  split; [|split; [exact (proj1 (proj2 c07_ex_refused_hyps))|split; [reflexivity|apply le_n]]].
+  destruct (find_cuts_correct 100 (ex_in true false 2) r Hr Hwf) as (p & Hc & Hperm & _ & _ & Hf).
+  exists p. split; [exact Hperm|]. change (render ex_gtab p ex_circ) with (render (fi_gtab (ex_in true false 2)) p (fi_circ (ex_in true false 2))).
+  rewrite <- Hc. exact (Hf Hpl Htab).
+Qed.
+
+(* non-vacuity of the pop contract: two entries of equal cost and depth, different rand *)
+Example c07_ex_pop :
+  let s0 := init_state 1 0 in
+  let e1 := mkQE 1%Q 0 (1 # 2)%Q 0 s0 in let e2 := mkQE 1%Q 0 (1 # 4)%Q 1 s0 in
+  seqs_distinct [e1; e2] /\ extract_min [e1; e2] = Some (e2, [e1]) /\ minimal_in e2 [e2; e1].
+Proof.
+  split; [repeat constructor; simpl; intuition discriminate|]. split; [reflexivity|].
+  intros x [<-|[<-|[]]]; reflexivity.
+Qed.
+
 (* tie to the source: the constants and tables hard-coded in Model/CutFinder*.v *)
 Theorem c07_facts :
   (inject_Z (Z.of_nat cf_left_wire_mult) = left_wire_mult /\
@@ -177,5 +265,11 @@ Print Assumptions c07_feasible.
 Print Assumptions c07_fails_only_if_infeasible.
 Print Assumptions c07_export_never_crashes.
 Print Assumptions c07_terminates.
+Print Assumptions c07_succeeds_when_feasible.
+Print Assumptions c07_cut_positions.
+Print Assumptions c07_pop_is_minimum.
+Print Assumptions c07_pop_contract_determines.
+Print Assumptions c07_queue_is_multiset.
+Print Assumptions c07_queue_seqs_distinct.
 Print Assumptions c07_compression_invisible.
 Print Assumptions c07_facts.
